@@ -250,6 +250,8 @@ func genPrec(stream string, seed uint64, nTrees int, triples bool) []GenCase {
 	}
 	for _, s := range []string{"x++;", "x--;", "x = 1; x++; return x;", "a += b * c; return a;", "a -= b - c; return a;", "a *= b + c; return a;", "a /= c + 1; return a;",
 		"return a ? b ? 1 : 2 : 3;", "return a ? 1 : b ? 2 : 3;", "return (a ? 1 : 2) ? 3 : 4;", "return a ? (b ? 1 : 2) : 3;", "return f(a ? 1 : 2);",
+		"return a ? {\"k\": b ? 1 : 2} : 3;", "return a ? [b ? 1 : 2] : 3;", "return a ? f(b ? 1 : 2) : 3;", "return a ? 1 : {\"k\": b ? 1 : 2};", "return a ? {b ? 1 : 2: 3} : 4;", "return a ? xs[b ? 0 : 1] : 3;",
+		"return a ? len(keys({\"k\": b ? \"x\" : \"y\"})) : 0;", "return {\"k\": a ? 1 : 2};", "return [a ? 1 : 2, b ? 3 : 4];", "return {\"k\": a ? 1 : 2, \"j\": b ? 3 : 4};", "x = {\"k\": a ? 1 : 2}; return b ? x : 0;",
 		"return a.b;", "return a.b.c;", "return h.k + 1;", "return -a ** 2;", "return 2 ** 3 ** 2;", "return 2 ** -1;", "return a - -b;", "return !a == b;", "return !(a == b);",
 		"return a..b + 1;", "return (a..b)[0];", "return [1,2][0] + 1;", "return f(1)(2);", "return f(1)[2];", "return a in [1] == true;"} {
 		add(s, "", "", "special")
@@ -320,6 +322,16 @@ var exprContexts = []struct{ name, pre, post string }{
 	{"switch-value-no-cases", "switch (", ") { }"},
 	{"case-second-expr", "switch (1) { case 1, ", " { x = 1; } }"},
 	{"while-condition", "while (", ") { x = 1; }"},
+	{"condition-empty-block", "if (", ") { }"},
+	{"condition-empty-blocks", "if (", ") { } else { }"},
+	{"condition-empty-then", "if (", ") { } else { x = 1; }"},
+	{"while-condition-empty-block", "while (", ") { }"},
+	{"foreach-iterable-empty-block", "foreach q in ", " { }"},
+	{"case-expr-empty-block", "switch (1) { case ", " { } }"},
+	{"hash-key-in-call", "x = len(keys({", ": 1}));"},
+	{"hash-value-in-ternary-arm", "x = true ? {\"k\": ", "} : 2;"},
+	{"array-in-ternary-arm", "x = true ? [1, ", "] : 2;"},
+	{"argument-in-else-arm", "x = true ? 1 : between(1, ", ", 3);"},
 	{"else-if-condition", "if (false) { x = 1; } else if (", ") { x = 2; }"},
 	{"index-base", "x = (", ")[0];"},
 	{"call-first-arg", "print(", ", 2);"},
@@ -643,6 +655,11 @@ func genLex(stream string, seed uint64, n int) []GenCase {
 			"return (%s ~= /%s/i) && true;"} {
 			add(fmt.Sprintf(tmpl, subj, p[0]), fmt.Sprintf("refirst-%d-%d", k, j), "expecttrue", []string{"tokens"}, "regexp-first-char")
 		}
+	}
+	// a comment runs to the NEWLINE: a carriage return, a form feed, a tab, quotes or slashes inside it end nothing
+	for k, p := range [][2]string{{"a = 1; // was:\ra = 2;\nreturn a;", "1"}, {"a = 1; // x\r\na = a + 1; // y\r return 9;\nreturn a;", "2"}, {"a = 1; // \"\na = 3;\nreturn a;", "3"},
+		{"a = 1; // /re/ a = 2;\nreturn a;", "1"}, {"a = 4; //\fa = 5;\nreturn a;", "4"}, {"a = 1; // c1 // c2 a = 2;\nreturn a; // end", "1"}, {"return 7; //\r", "7"}, {"return 8 // c\r\n;", "8"}} {
+		add(p[0], fmt.Sprintf("comment-end-%d", k), "expectint:"+p[1], []string{"tokens"}, "comment-extent")
 	}
 	// a literal keeps its own type whatever other literal of the same spelling stands in the script
 	for k, p := range [][3]string{{"3.5", "\"3.5\"", "floatstring"}, {"\"3.5\"", "3.5", "stringfloat"}, {"70000", "\"70000\"", "integerstring"}, {"\"70000\"", "70000", "stringinteger"},
